@@ -569,6 +569,7 @@ impl Recv {
     //@spec         // C03/C18: every buffered event is dropped; the bytes the application never saw are credited back to the
     //@spec         // CONNECTION exactly once and never more than is in flight for the stream
     //@spec         final(stream).pending_recv@.len() == 0,
+    //@spec         *final(stream) == (Stream { pending_recv: final(stream).pending_recv, in_flight_recv_data: final(stream).in_flight_recv_data, ..*old(stream) }),
     //@spec         final(stream).in_flight_recv_data <= old(stream).in_flight_recv_data,
     //@spec         final(self).in_flight_data == old(self).in_flight_data - (old(stream).in_flight_recv_data - final(stream).in_flight_recv_data),
     //@spec         final(self).flow.a() == old(self).flow.a() + (old(stream).in_flight_recv_data - final(stream).in_flight_recv_data),
@@ -579,6 +580,22 @@ impl Recv {
     //@loop 0         to_release <= stream.in_flight_recv_data,
     //@loop 0     ensures stream.pending_recv@.len() == 0,
     //@loop 0     decreases stream.pending_recv@.len(),
+    //@end
+
+    // C19/C03: when the last handle of a stream is dropped (drop_stream_ref, unit v_streams) everything it still holds of
+    // the CONNECTION receive window goes back: nothing of a forgotten stream stays "in flight" for ever
+    //@extract src/proto/streams/recv.rs Recv::release_closed_capacity
+    //@subst stream: &mut store::Ptr=>stream: &mut Stream
+    //@spec     requires
+    //@spec         old(stream).ref_count == 0,                   // the real debug_assert_eq!
+    //@spec         wf_conn(old(self).flow, old(self).in_flight_data as int),
+    //@spec         old(stream).in_flight_recv_data <= old(self).in_flight_data,
+    //@spec     ensures
+    //@spec         final(stream).in_flight_recv_data == 0 && final(stream).pending_recv@.len() == 0,
+    //@spec         final(self).in_flight_data == old(self).in_flight_data - old(stream).in_flight_recv_data,
+    //@spec         final(self).flow.a() == old(self).flow.a() + old(stream).in_flight_recv_data,
+    //@spec         final(self).flow.w() == old(self).flow.w(),
+    //@spec         final(stream).ref_count == old(stream).ref_count && final(stream).state == old(stream).state && final(stream).key == old(stream).key,
     //@end
 
     //@extract src/proto/streams/recv.rs Recv::apply_local_settings
